@@ -11,7 +11,6 @@ import (
 	"reflect"
 	"sort"
 	"strconv"
-	"strings"
 
 	"github.com/go-git/go-billy/v6/osfs"
 
@@ -538,9 +537,7 @@ func (c *Config) Unmarshal(b []byte) error {
 
 func (c *Config) unmarshalCore() {
 	s := c.Raw.Section(coreSection)
-	if s.Options.Get(bareKey) == "true" {
-		c.Core.IsBare = true
-	}
+	c.Core.IsBare = optionBool(s.Options, bareKey, c.Core.IsBare)
 
 	c.Core.Worktree = s.Options.Get(worktreeKey)
 	c.Core.CommentChar = s.Options.Get(commentCharKey)
@@ -555,9 +552,7 @@ func (c *Config) unmarshalCore() {
 		c.Core.ProtectHFS = parsed
 	}
 
-	if fileMode := s.Options.Get(fileModeKey); fileMode == "false" {
-		c.Core.FileMode = false
-	}
+	c.Core.FileMode = optionBool(s.Options, fileModeKey, c.Core.FileMode)
 
 	if s.Options.Get(repositoryFormatVersionKey) == string(format.Version1) {
 		c.Core.RepositoryFormatVersion = format.Version1
@@ -567,22 +562,20 @@ func (c *Config) unmarshalCore() {
 func (c *Config) unmarshalExtensions() {
 	s := c.Raw.Section(extensionsSection)
 	c.Extensions.ObjectFormat = format.ObjectFormat(s.Options.Get(objectFormatKey))
-	c.Extensions.WorktreeConfig = strings.EqualFold(s.Options.Get(worktreeConfigKey), "true")
+	c.Extensions.WorktreeConfig = optionBool(s.Options, worktreeConfigKey, false)
 }
 
 func (c *Config) unmarshalTag() {
 	s := c.Raw.Section(tagSection)
-	v, err := strconv.ParseBool(s.Options.Get(gpgSignKey))
-	if err == nil {
-		c.Tag.GpgSign = NewOptBool(v)
+	if v := optionOptBool(s.Options, gpgSignKey); v.IsSet() {
+		c.Tag.GpgSign = v
 	}
 }
 
 func (c *Config) unmarshalCommit() {
 	s := c.Raw.Section(commitSection)
-	v, err := strconv.ParseBool(s.Options.Get(gpgSignKey))
-	if err == nil {
-		c.Commit.GpgSign = NewOptBool(v)
+	if v := optionOptBool(s.Options, gpgSignKey); v.IsSet() {
+		c.Commit.GpgSign = v
 	}
 }
 
@@ -626,8 +619,8 @@ func (c *Config) unmarshalPack() error {
 		c.Pack.Window = uint(winUint)
 	}
 
-	c.Pack.ReadReverseIndex = s.Options.Get(readReverseIndexKey) != "false"
-	c.Pack.WriteReverseIndex = s.Options.Get(writeReverseIndexKey) != "false"
+	c.Pack.ReadReverseIndex = optionBool(s.Options, readReverseIndexKey, true)
+	c.Pack.WriteReverseIndex = optionBool(s.Options, writeReverseIndexKey, true)
 
 	return nil
 }
@@ -730,9 +723,8 @@ func (c *Config) unmarshalProtocol() error {
 
 func (c *Config) unmarshalIndex() {
 	s := c.Raw.Section(indexSection)
-	v, err := strconv.ParseBool(s.Options.Get(skipHashKey))
-	if err == nil {
-		c.Index.SkipHash = NewOptBool(v)
+	if v := optionOptBool(s.Options, skipHashKey); v.IsSet() {
+		c.Index.SkipHash = v
 	}
 }
 
@@ -743,9 +735,8 @@ func (c *Config) unmarshalInit() {
 
 func (c *Config) unmarshalUploadArchive() {
 	s := c.Raw.Section(uploadArchiveSection)
-	v, err := strconv.ParseBool(s.Options.Get(allowUnreachableKey))
-	if err == nil {
-		c.UploadArchive.AllowUnreachable = NewOptBool(v)
+	if v := optionOptBool(s.Options, allowUnreachableKey); v.IsSet() {
+		c.UploadArchive.AllowUnreachable = v
 	}
 }
 
@@ -1114,8 +1105,8 @@ func (c *RemoteConfig) unmarshal(s *format.Subsection) error {
 	c.URLs = append([]string(nil), c.raw.Options.GetAll(urlKey)...)
 	c.URLs = append(c.URLs, c.raw.Options.GetAll(pushurlKey)...)
 	c.Fetch = fetch
-	c.Mirror = c.raw.Options.Get(mirrorKey) == "true"
-	c.Promisor = c.raw.Options.Get(promisorKey) == "true"
+	c.Mirror = optionBool(c.raw.Options, mirrorKey, false)
+	c.Promisor = optionBool(c.raw.Options, promisorKey, false)
 	c.PartialCloneFilter = c.raw.Options.Get(partialCloneFilterKey)
 
 	return nil
